@@ -181,6 +181,42 @@ def evaluate(case):
             if not np.max(np.abs(sig.values - 3.0 * outs[b])) <= 3 * tol:
                 fails.append(_f("response-homogeneity", case, rname, b, "filter with 3R != 3 filter with R: %.3g"
                                 % np.max(np.abs(sig.values - 3.0 * outs[b]))))
+    # ---- function-backed signals: the same filter, applied once to the buffer-extended samples -----------------------------
+    if n <= 65:
+        from pyrex.signals import FunctionSignal
+        nb, na = 3, 5
+        m = n + nb + na
+        t0 = -7 * dt
+        exts = {"ramp": np.arange(m, dtype=float) / 8 - 0.5, "late_delta": np.zeros(m), "early_delta": np.zeros(m)}
+        exts["late_delta"][n + nb + 1] = 1.0            # inside the trailing buffer
+        exts["early_delta"][1] = 1.0                     # inside the leading buffer
+        for rname, (lib, ref, maxabs, delay) in responses(n, dt).items():
+            if only and only.get("response") != rname:
+                continue
+            for ename, w in exts.items():
+                def func(t, w=w):
+                    idx = np.rint((np.asarray(t, dtype=float) - t0) / dt).astype(int) + nb
+                    ok = (idx >= 0) & (idx < m)
+                    return np.where(ok, w[np.clip(idx, 0, m - 1)], 0.0)
+                fs = FunctionSignal(t0 + np.arange(n) * dt, func)
+                fs.set_buffers(leading=nb * dt, trailing=na * dt)
+                try:
+                    fs.filter_frequencies(lib, force_real=fr)
+                    got = np.array(fs.values)
+                except Exception as e:
+                    from ..engine import src
+                    fails.append(_f("exception", case, rname, "function:" + ename, "FunctionSignal filter raised " + src.short_tb(e)))
+                    continue
+                neval += 1
+                exp_full, _ = dft.filtered_reference(w, dt, ref, fr, use_fft=2 * m > 160)
+                exp = exp_full[nb:nb + n]
+                tol = 1e-11 * max(1.0, float(np.max(np.abs(w)))) * max(1.0, maxabs)
+                if got.shape != (n,) or not np.max(np.abs(got - exp)) <= tol:
+                    fails.append(_f("function-signal-filter", case, rname, "function:" + ename,
+                                    "buffered FunctionSignal (lead %d, trail %d samples): values %s..., filter of the buffer-extended samples cropped to the window %s..."
+                                    % (nb, na, got[:5].tolist() if got.shape == (n,) else got.shape, exp[:5].tolist())))
+                elif np.any(got != 0):
+                    nontriv.append("%d|%g|%s|%s|fn:%s" % (n, dt, fr, rname, ename))
     return {"n": neval, "nontrivial": nontriv, "fails": fails,
             "stats": {"max_err_over_tol": max_ratio},
             "sample": {"N": n, "dt": dt, "force_real": fr, "responses": list(responses(n, dt))[:5],
